@@ -343,6 +343,10 @@ fn judge(c: &Case, text: &str) -> Option<(String, String)> {
     first
 }
 
+pub fn all_inputs(tier: &str) -> Vec<pipe::Input> {
+    cases(tier).iter().map(|c| to_input(&[spec_of(c)])).collect()
+}
+
 pub fn run(tier: &str, only: Option<&Value>) -> i32 {
     let mut rep = Report::new("C17", tier);
     let all = cases(tier);
